@@ -28,6 +28,8 @@ def check(ctx):
     from vxlib.rustsrc import Lost
     try:
         ctx.verus_unit(cmpunit.make_unit(ctx.scratch.dir), finder=None)
+        from contracts import itemname
+        ctx.verus_unit(itemname.UNIT, finder=dict(module='element', check='decompose', alphabet=b'a0195', maxlen=5))
     except Lost as e:
         ctx.undecided.append('cmp reason=lost anchor: %s' % e)
     specs = [dict(name='cmp_laws_' + t, module='chardata', kind='complete', timeout=400, family='cmp_laws_' + t,
